@@ -92,7 +92,23 @@ def record(rnd, c, inst, through_market):
         br.set_balance(t0, amt0 * 2 + 1)
         br.set_balance(t1, amt1 * 2 + 1)
         base_max, quote_max = (amt1, amt0) if zq else (amt0, amt1)
-        pos, base_used, quote_used, L = m.add_liquidity_by_tick(tA, tB, base_max, quote_max, sqrt_price_x96=s, trim_tick=False)
+        kw = {"sqrt_price_x96": s}
+        if through_market == "status":
+            # "withdrawing at the deposit price": add and remove under ONE unchanged market status, the price taken from the status
+            # by both calls (no explicit sqrt price).  The status' closeTick deliberately disagrees with its price (in recorded data
+            # `price` is the previous bar's close and `closeTick` this bar's).
+            import pandas as pd
+            from demeter.uniswap import UniswapMarketStatus
+            from demeter.uniswap.helper import base_unit_price_to_sqrt_price_x96, sqrt_price_x96_to_base_unit_price, sqrt_price_x96_to_tick
+            price = sqrt_price_x96_to_base_unit_price(s, d0, d1, zq)
+            s = int(base_unit_price_to_sqrt_price_x96(price, d0, d1, zq))         # the sqrt price both calls derive from the status
+            other = sqrt_price_x96_to_tick(s) + rnd.choice([-977, -61, 3, 40, 1203])
+            other = max(MIN_TICK, min(MAX_TICK, other))
+            m.set_market_status(UniswapMarketStatus(timestamp=None, data=pd.Series(
+                data=[10 ** 18, 10 ** 10, 10 ** 20, other, price],
+                index=["inAmount0", "inAmount1", "currentLiquidity", "closeTick", "price"])), price=None)
+            kw = {}
+        pos, base_used, quote_used, L = m.add_liquidity_by_tick(tA, tB, base_max, quote_max, trim_tick=False, **kw)
         u0, u1 = (quote_used, base_used) if zq else (base_used, quote_used)
         spent0 = amt0 * 2 + 1 - br.get_token_balance(t0)
         spent1 = amt1 * 2 + 1 - br.get_token_balance(t1)
@@ -100,7 +116,7 @@ def record(rnd, c, inst, through_market):
         if abs(spent0 - u0) > tol0 or abs(spent1 - u1) > tol1:
             return {"_direct": f"wallet debited ({spent0}, {spent1}) but add_liquidity_by_tick reports ({u0}, {u1})"}
         if L > 0:
-            base_get, quote_get = m.remove_liquidity(pos, sqrt_price_x96=s)
+            base_get, quote_get = m.remove_liquidity(pos, **kw)
             c0, c1 = (quote_get, base_get) if zq else (base_get, quote_get)
         else:
             c0, c1 = Decimal(0), Decimal(0)
@@ -115,7 +131,7 @@ def record(rnd, c, inst, through_market):
             "used": [qj(frac(Decimal(u0))), qj(frac(Decimal(u1)))], "closed": [qj(frac(Decimal(c0))), qj(frac(Decimal(c1)))],
             "s2": limbs(hi), "amts2": [qj(frac(Decimal(a2[0]))), qj(frac(Decimal(a2[1])))], "k": k,
             "amtsK": [qj(frac(Decimal(ak[0]))), qj(frac(Decimal(ak[1])))],
-            "_case": c, "_via": "market" if through_market else "core", "_zq": zq, "_sp": sp,
+            "_case": c, "_via": ("market_status" if through_market == "status" else "market") if through_market else "core", "_zq": zq, "_sp": sp,
             "_in": {"amt0": str(amt0), "amt1": str(amt1), "s": str(s)}}
 
 
@@ -167,7 +183,12 @@ def run(chk: Check) -> int:
                 skipped += 1
                 continue
             try:
-                e = record(rnd, c, inst, through_market=(j % 3 == 2))
+                via = False
+                if j % 3 == 2:
+                    # every other market-level instance goes through the market status (prices the Decimal helpers can represent)
+                    via = "status" if (j // 3 + len(events)) % 2 == 0 and abs(inst[1]) < 600000 and abs(inst[2]) < 600000 \
+                        and c["region"] in ("inside", "at_lower", "at_upper") else True
+                e = record(rnd, c, inst, through_market=via)
             except Exception as ex:
                 chk.violation(f"call|raises|{c['region']}", f"case {c} instance {inst}: {type(ex).__name__}: {ex}",
                               {"kind": "liq_case", "case": c, "inst": [str(x) for x in inst]})
